@@ -35,17 +35,16 @@ theorem kok_base (s : RStmt) : KOK (baseA s) (inputs s) (sacc s) := by
   · right; exact h
 
 /-- from agreement on the recorded inputs to the simulation invariant after the region -/
-theorem sim_final {s : RStmt} {D : List Nat} {σ τ : Store} (hc : chk (inputs s) s [] = some D)
-    (h : AgreeV s (inputs s) σ τ) : Sim (Adef (baseA s) D) σ τ (rexec fuel s σ) (rexec fuel s τ) := by
-  have h0 : Sim (Adef (baseA s) []) σ τ σ τ := by
-    constructor
-    · intro l hl
-      obtain ⟨x, i, j⟩ := l
-      rcases hl with hl | hl
-      · exact h x hl.1 i j hl.2
-      · exact absurd hl.1 (by simp)
-    · intro l; exact Or.inr ⟨rfl, rfl⟩
-  exact (chk_sim s [] D σ τ hc (kok_base s) h0).1
+theorem sim_final {s : RStmt} {S : Defs} {σ τ : Store} (hc : chk (inputs s) s ([], []) = some S)
+    (h : AgreeV s (inputs s) σ τ) : SimS (baseA s) S σ τ (rexec fuel s σ) (rexec fuel s τ) := by
+  have h0 : SimS (baseA s) ([], []) σ τ σ τ := by
+    refine ⟨⟨?_, fun l => Or.inr ⟨rfl, rfl⟩⟩, fun p hp => by cases hp⟩
+    intro l hl
+    obtain ⟨x, i, j⟩ := l
+    rcases hl with hl | hl
+    · exact h x hl.1 i j hl.2
+    · exact absurd hl.1 (by simp)
+  exact (chk_sim s ([], []) S σ τ hc (kok_base s) h0).1
 
 theorem outDefined_chk {s : RStmt} (h : OutputsDefined s) : WholeFirstWrites s := by
   unfold OutputsDefined outDefined at h
@@ -100,7 +99,7 @@ theorem C12_inputs_partial (s : RStmt) (hw : WholeFirstWrites s) (σ τ : Store)
     (h : AgreeV s (inputs s) σ τ) :
     ∀ l, (rexec fuel s σ) l = (rexec fuel s τ) l ∨ ((rexec fuel s σ) l = σ l ∧ (rexec fuel s τ) l = τ l) := by
   obtain ⟨D, hD⟩ := Option.isSome_iff_exists.mp hw
-  exact (sim_final hD h).rel
+  exact (sim_final hD h).sim.rel
 
 /-- **replay, partial**: if moreover every output is an input or such an unconditionally
 defined scalar, replaying from the recorded inputs reproduces the recorded outputs -/
@@ -113,7 +112,7 @@ theorem C12_replay_partial (s : RStmt) (ho : OutputsDefined s) (σ τ : Store)
     intro x hx i j hcell
     simp only [List.all_eq_true, Bool.or_eq_true, List.contains_iff_mem, Bool.and_eq_true,
       Bool.not_eq_true'] at ho
-    apply hs.agree
+    apply hs.sim.agree
     rcases ho x hx with hin | ⟨hd, ha⟩
     · exact Or.inl ⟨hin, hcell⟩
     · right
@@ -223,6 +222,69 @@ example : ¬ WholeFirstWrites (.seq (.ite (.var 0) (.assign 1 (.lit 1)) .skip) (
 in the access list, so `i` is no input; rejected -/
 example : inputs (.loop 0 (.var 0) (.lit 5) (.lit 1) .skip) = [] := by decide
 example : ¬ WholeFirstWrites (.loop 0 (.var 0) (.lit 5) (.lit 1) .skip) := by decide
+
+/-! ## Covering writes: the syntactic criterion is sufficient; inputs are not minimal
+
+`WholeFirstWrites` is purely syntactic (`chk`).  Besides unconditionally assigned scalars it
+accepts *covering writes*: a read of `a(i)` after an unconditional store to the textually same
+`a(i)` in the same statement sequence, nothing `i` depends on having been written in between.
+`C12_inputs_partial` is proved from `chk` alone, so this criterion — the one a conservative
+`is_written_first` could implement without def-use chains — is proved sufficient. -/
+
+/-- **a covering write is sufficient** (the step): an unconditional store to `a(i)` whose
+operands may be evaluated and whose index does not depend on `a` makes `a(i)` a covered
+element; `okX` then accepts reads of `.idx1 a i` although `a` is not a recorded input, and
+`chk_sim` (behind `C12_inputs_partial`) shows both runs agree on that element -/
+theorem C12_covering_write_sufficient (K : List Nat) (S : Defs) (a : Nat) (i e : Expr)
+    (hi : okX K S i = true) (he : okX K S e = true) (hm : mentions i a = false) :
+    ∃ S', chk K (.store1 a i e) S = some S' ∧ (a, i) ∈ S'.2 ∧ S'.1 = S.1 :=
+  ⟨(S.1, (a, i) :: killA S.2 [a]), by simp [chk, hi, he, hm], by simp, rfl⟩
+
+/-- `do i = 1, n: a(i) = b(i) * 2; c(i) = a(i) + 1; enddo` (a=0 b=1 c=2 i=3 n=4): `a` is written
+first and read — at the covered element only: not an input, and the theorem applies -/
+def cover2 : RStmt :=
+  .loop 3 (.lit 1) (.var 4) (.lit 1)
+    (.seq (.store1 0 (.var 3) (.bin .mul (.idx1 1 (.var 3)) (.lit 2)))
+          (.store1 2 (.var 3) (.bin .add (.idx1 0 (.var 3)) (.lit 1))))
+
+example : ¬ (inputs cover2).contains 0 ∧ WholeFirstWrites cover2 := by decide
+
+theorem cover2_inputs_sufficient (σ τ : Store) (h : AgreeV cover2 (inputs cover2) σ τ) :
+    ∀ l, (rexec fuel cover2 σ) l = (rexec fuel cover2 τ) l
+      ∨ ((rexec fuel cover2 σ) l = σ l ∧ (rexec fuel cover2 τ) l = τ l) :=
+  C12_inputs_partial cover2 (by decide) σ τ h
+
+/-- reading a different element (`a(i+1)`), or the same text after the index variable changed,
+is not covered -/
+example : ¬ WholeFirstWrites (.loop 3 (.lit 1) (.var 4) (.lit 1)
+    (.seq (.store1 0 (.var 3) (.lit 7))
+          (.store1 2 (.var 3) (.idx1 0 (.bin .add (.var 3) (.lit 1)))))) := by decide
+example : ¬ WholeFirstWrites (.seq (.store1 0 (.var 3) (.lit 7))
+    (.seq (.assign 3 (.bin .add (.var 3) (.lit 1))) (.assign 5 (.idx1 0 (.var 3))))) := by decide
+/-- a store under a condition covers nothing after the IF; one in BOTH branches does (scalars) -/
+example : ¬ WholeFirstWrites (.seq (.ite (.var 1) (.store1 0 (.lit 1) (.lit 7)) .skip)
+    (.assign 5 (.idx1 0 (.lit 1)))) := by decide
+example : WholeFirstWrites (.seq (.ite (.var 1) (.assign 2 (.lit 1)) (.assign 2 (.lit 5)))
+    (.assign 3 (.var 2))) := by decide
+
+/-- **inputs are not minimal** (the converse direction is false): a variable is reported as
+input as soon as its first textual access is a read, even if no execution reads it (dead
+branch) — here `a` is an input of `if (0 /= 0) s = a(1)`, and the region is the identity -/
+def deadRead : RStmt := .ite (.lit 0) (.assign 1 (.idx1 0 (.lit 1))) .skip
+
+theorem C12_inputs_not_minimal :
+    0 ∈ inputs deadRead ∧ ∀ (fuel : Nat) (σ : Store), rexec fuel deadRead σ = σ := by
+  refine ⟨by decide, fun fuel σ => ?_⟩
+  simp [deadRead, rexec, eval]
+
+/-- nor value-minimal: `s = a(1) - a(1)` reads `a(1)` on every execution, but the result does
+not depend on it -/
+def uselessRead : RStmt := .assign 1 (.bin .sub (.idx1 0 (.lit 1)) (.idx1 0 (.lit 1)))
+
+theorem C12_inputs_not_value_minimal :
+    0 ∈ inputs uselessRead ∧ ∀ (fuel : Nat) (σ : Store), rexec fuel uselessRead σ = σ.set (1, 0, 0) 0 := by
+  refine ⟨by decide, fun fuel σ => ?_⟩
+  simp [uselessRead, rexec, eval, evalBin]
 
 /-! ## DO WHILE, CodeBlocks, agreement with MiniF -/
 
